@@ -599,6 +599,10 @@ func gen(g *hx.Gen) {
 				if a == "" {
 					a = "h:22"
 				}
+				if r.Chance(1, 4) { // points excluded by line_matches_own_host's well-formedness (Safe)
+					a = r.PickStr("a b", "a,b", "*.a", "!a", "a?", "#a", "@a", "|a", "a\tb", "a*", "@revoked", "[a", "a]", "h\r") + ":" + hx.Pick(r, portPool)
+					g.Stat("lq.excluded-point")
+				}
 				addrs = append(addrs, a)
 			}
 			var qs []string
